@@ -109,6 +109,8 @@ pub enum Cmd {
     Scenario {
         spec: crate::director::ScenarioSpec,
     },
+    /// current state of the followers of the last scenario (they keep running)
+    ScenarioPeek,
 }
 
 #[derive(Debug, Serialize, Deserialize, Clone)]
@@ -175,6 +177,8 @@ pub struct Executor {
     followers: HashMap<u32, Follower>,
     next_h: u32,
     engine: Option<xs::nu::Engine>,
+    pub scenario_followers: Vec<Arc<crate::director::FollowShared>>,
+    pub scenario_stop: Option<Arc<AtomicBool>>,
 }
 
 fn ok(v: serde_json::Value) -> serde_json::Value {
@@ -483,6 +487,7 @@ impl Executor {
                 ok(json!(null))
             }
             Cmd::Scenario { spec } => crate::director::run_scenario(self, spec),
+            Cmd::ScenarioPeek => crate::director::peek(self),
         }
     }
 }
@@ -539,6 +544,8 @@ pub fn main_exec(args: &[String]) -> i32 {
         followers: HashMap::new(),
         next_h: 1,
         engine: None,
+        scenario_followers: Vec::new(),
+        scenario_stop: None,
     };
     let stdin = std::io::stdin();
     for line in stdin.lock().lines() {
